@@ -1,22 +1,25 @@
 (* Corr/C05.v — correspondence relation for C05: the models of Model/Transform.v, Model/Shapes.v,
    Model/Scene.v against the observed result of the implementation's translate_rotate.
    The observation is the flat list of all stored numbers of the transformed object in the traversal
-   order of [atoms_*] (points as x, y; orientations; orientation intervals as start, length; all other
+   order of [atoms_*] (points as x, y; orientations; orientation intervals as start, length, end; all other
    numbers), or "raised".  Plain numbers are compared with tolerance tol * (max(1,|i|) + scale),
-   orientations modulo tau with the same tolerance. *)
+   orientations modulo tau with the same tolerance; the two ends of an orientation interval must in addition lie
+   inside [-tau, tau] as observed (an AngleInterval is normalised; the model's ends are, Proofs/Shapes.v MItv).
+   [CTwice k t2 a2 c2 s2]: the object of case [k] transformed by k's motion and then by (t2, a2); the observation
+   of [k] is the one after the second motion (the model is applied twice). *)
 From Coq Require Import QArith Qabs ZArith Bool List.
 From CR Require Import Base.QMod Model.Interval Model.Transform Model.Shapes Model.Scene Corr.Obs.
 Import ListNotations.
 Open Scope Q_scope.
 
-Inductive fnum := FQ (x : Q) | FA (x : Q).
+Inductive fnum := FQ (x : Q) | FA (x : Q) | FR (x : Q).
 Inductive obs := OFlat (l : list Q) | OExc.
 
 Definition flat_atom (x : atom) : list fnum :=
   match x with
   | APt p => [FQ (px p); FQ (py p)]
   | AOri o => [FA o]
-  | AItv J => [FA (lo J); FQ (hi J - lo J)]
+  | AItv J => [FR (lo J); FQ (hi J - lo J); FR (hi J)]
   | AVec v => [FQ (px v); FQ (py v)]
   | ANum x => [FQ x]
   end.
@@ -26,8 +29,14 @@ Definition flat (l : list atom) : list fnum := flat_map flat_atom l.
 Definition close_mod (tau scale m i : Q) : bool :=
   let d := qmod tau (m - i + tau / 2) - tau / 2 in
   Qle_bool (Qabs d) (tol * (1 + Qabs scale)).
+(* an end of an orientation interval: equal modulo tau, and the observed value inside [-tau, tau] *)
+Definition in_range (tau scale i : Q) : bool := Qle_bool (Qabs i) (tau + tol * (1 + Qabs scale)).
 Definition agree_num (tau scale : Q) (m : fnum) (i : Q) : bool :=
-  match m with FQ x => close_s scale x i | FA x => close_mod tau scale x i end.
+  match m with
+  | FQ x => close_s scale x i
+  | FA x => close_mod tau scale x i
+  | FR x => close_mod tau scale x i && in_range tau scale i
+  end.
 Fixpoint agree_list (tau scale : Q) (m : list fnum) (i : list Q) : bool :=
   match m, i with
   | [], [] => true
@@ -51,11 +60,12 @@ Inductive case :=
 | CPost (scale : Q) (t : pt) (a c s : Q) (p : pt) (o : obs)            (* TrafficSign / TrafficLight *)
 | CObstacle (scale : Q) (t : pt) (a c s : Q) (ob : obstacle) (o : obs)
 | CScenario (scale : Q) (t : pt) (a c s : Q) (sc : scenario) (o : obs)
-| CPPSet (scale : Q) (t : pt) (a c s : Q) (ps : list pproblem) (o : obs).
+| CPPSet (scale : Q) (t : pt) (a c s : Q) (ps : list pproblem) (o : obs)
+| CTwice (k : case) (t2 : pt) (a2 c2 s2 : Q).                          (* k's motion, then (t2, a2) *)
 
 Definition fuel := 50%nat.
 
-Definition check (tau : Q) (k : case) : bool :=
+Definition check1 (tau : Q) (k : case) : bool :=
   match k with
   | CPts sc t a c s vs o => agree tau sc (map APt) (Ok (translate_rotate_pts t a c s vs)) o
   | CRotTr sc t a c s vs o => agree tau sc (map APt) (Ok (rotate_translate_pts t a c s vs)) o
@@ -66,4 +76,35 @@ Definition check (tau : Q) (k : case) : bool :=
   | CObstacle sc t a c s ob o => agree tau sc atoms_obstacle (tr_obstacle tau fuel t a c s ob) o
   | CScenario sc t a c s scn o => agree tau sc atoms_scenario (tr_scenario tau fuel t a c s scn) o
   | CPPSet sc t a c s ps o => agree tau sc atoms_ppset (tr_ppset tau fuel t a c s ps) o
+  | CTwice _ _ _ _ _ => false
+  end.
+
+(* translate_rotate(t, a) followed by translate_rotate(t2, a2) on the result: the model is bound twice; an
+   exception of either step is "raised" *)
+Definition check2 (tau : Q) (k : case) (t2 : pt) (a2 c2 s2 : Q) : bool :=
+  match k with
+  | CPts sc t a c s vs o =>
+      agree tau sc (map APt) (Ok (translate_rotate_pts t2 a2 c2 s2 (translate_rotate_pts t a c s vs))) o
+  | CRotTr sc t a c s vs o =>
+      agree tau sc (map APt) (Ok (rotate_translate_pts t2 a2 c2 s2 (rotate_translate_pts t a c s vs))) o
+  | CShape sc t a c s sh o =>
+      agree tau sc atoms_shape (bind (tr_shape tau fuel t a c s sh) (tr_shape tau fuel t2 a2 c2 s2)) o
+  | CState sc t a c s st o =>
+      agree tau sc atoms_state (bind (tr_state tau fuel t a c s st) (tr_state tau fuel t2 a2 c2 s2)) o
+  | CLanelet sc t a c s l o =>
+      agree tau sc atoms_lanelet (bind (tr_lanelet tau t a c s l) (tr_lanelet tau t2 a2 c2 s2)) o
+  | CPost sc t a c s p o => agree tau sc (fun q => [APt q]) (bind (tr_post tau t a c s p) (tr_post tau t2 a2 c2 s2)) o
+  | CObstacle sc t a c s ob o =>
+      agree tau sc atoms_obstacle (bind (tr_obstacle tau fuel t a c s ob) (tr_obstacle tau fuel t2 a2 c2 s2)) o
+  | CScenario sc t a c s scn o =>
+      agree tau sc atoms_scenario (bind (tr_scenario tau fuel t a c s scn) (tr_scenario tau fuel t2 a2 c2 s2)) o
+  | CPPSet sc t a c s ps o =>
+      agree tau sc atoms_ppset (bind (tr_ppset tau fuel t a c s ps) (tr_ppset tau fuel t2 a2 c2 s2)) o
+  | CTwice _ _ _ _ _ => false
+  end.
+
+Definition check (tau : Q) (k : case) : bool :=
+  match k with
+  | CTwice k1 t2 a2 c2 s2 => check2 tau k1 t2 a2 c2 s2
+  | _ => check1 tau k
   end.
